@@ -578,7 +578,22 @@ func (p *lineParser) CollectInline(kind InlineKind, n int) {
 		p.state = stateOpenMatched
 	}
 
-	if indent := p.Indent(); indent > 0 {
+	if kind == RawHTMLKind {
+		// Raw HTML is verbatim: as in addLineText, only a partially consumed tab is converted to spaces.
+		// Any other leading whitespace is part of the raw text.
+		if p.i < len(p.line) && p.line[p.i] == '\t' && p.tabPartial && p.tabRemaining > 0 {
+			p.container.inlineChildren = append(p.container.inlineChildren, &Inline{
+				kind:   IndentKind,
+				indent: int(p.tabRemaining),
+				span: Span{
+					Start: p.lineStart + p.i,
+					End:   p.lineStart + p.i + 1,
+				},
+			})
+			p.ConsumeIndent(int(p.tabRemaining))
+		}
+		n += indentLength(p.line[p.i:])
+	} else if indent := p.Indent(); indent > 0 {
 		indentStart := p.lineStart + p.i
 		p.Advance(indentLength(p.line[p.i:]))
 		p.container.inlineChildren = append(p.container.inlineChildren, &Inline{
